@@ -116,6 +116,14 @@ def source_meth(ctx):
     vlib.proof_phase_extra(ctx, 'Properties_meth_source')
 
 
+# augment_classes (class table, listed bases, closure): translators/lattice.py -> Gen/GenLat.v -> Properties_lat_source
+SOURCE_LAT = ('C04',)
+
+
+def source_lat(ctx):
+    vlib.proof_phase_extra(ctx, 'Properties_lat_source')
+
+
 def main(pid, assumptions, level='proof', explanation=None):
     ctx = vlib.Ctx(pid)
     if ctx.replay:
@@ -144,6 +152,8 @@ def main(pid, assumptions, level='proof', explanation=None):
         source_def(ctx)
     if pid in SOURCE_METH:
         source_meth(ctx)
+    if pid in SOURCE_LAT:
+        source_lat(ctx)
     res = coresuite.dispatch_suite(ctx.tier, ctx.seed)
     cov = coresuite.summarize(ctx, res, pid)
     if pid == 'C03':
